@@ -2,6 +2,7 @@ package main
 
 import (
 	"fmt"
+	"go/types"
 	"regexp"
 	"strings"
 
@@ -157,9 +158,240 @@ func (x *Exec) extraChecks(plan *Plan, only *regexp.Regexp) {
 	}
 }
 
-func (x *Exec) logCall(st *State, c *Contract, name string, args []Val, res []Val, panicked bool) {}
+// ---------------------------------------------------------------------------
+// Call logs (ghost history): for callees whose contract carries `flag logged`
+// the engine records, per call, the receiver/arguments and the results.
+//   calls(F)        number of calls so far
+//   arg(F, i, k)    k-th argument (0 = receiver for methods) of the i-th call
+//   argc(F, i, k)   contents of the backing array of a slice argument at call time
+//   ret(F, i, k)    k-th result of the i-th call
+//   panicked(F, i)  the i-th call panicked (maypanic callees)
 
-func (x *Exec) logExpr(c *EvalCtx, v *ECall) SV { sfail("call logs not implemented"); return SV{} }
+func logKey(c *Contract) string {
+	t := c.Target
+	if i := strings.LastIndexAny(t, ")/"); i >= 0 && strings.HasPrefix(t, "(") {
+		// (recv).Method -> Method qualified by receiver type name
+		j := strings.IndexByte(t, ')')
+		recv := t[1:j]
+		if k := strings.LastIndexAny(recv, "./"); k >= 0 {
+			recv = recv[k+1:]
+		}
+		recv = strings.TrimPrefix(recv, "*")
+		return recv + "." + t[j+2:]
+	}
+	if k := strings.LastIndexByte(t, '/'); k >= 0 {
+		t = t[k+1:]
+	}
+	return t
+}
+
+func (x *Exec) logCall(st *State, c *Contract, name string, args []Val, res []Val, panicked bool) {
+	if !c.Flags["logged"] {
+		return
+	}
+	key := logKey(c)
+	nName := "log." + key + ".n"
+	n, ok := st.ghost[nName]
+	if !ok {
+		n = declConst("log0 "+key+".n", SInt)
+		st.assume(app(SBool, ">=", n, mkInt(0)))
+	}
+	upd := func(field string, sort string, v T) {
+		gname := "log." + key + "." + field
+		cur, ok := st.ghost[gname]
+		if !ok {
+			cur = declConst("log0 "+key+"."+field, arraySort(SInt, sort))
+		}
+		st.ghost[gname] = st.name("log", store(cur, n, v))
+	}
+	for i, a := range args {
+		upd(fmt.Sprintf("arg%d", i), a.T.Sort, a.T)
+		if a.typ != nil {
+			if sl, ok := a.typ.Underlying().(*types.Slice); ok {
+				content := sel(st.arrHeap(sl.Elem()), sliceArr(a.T))
+				upd(fmt.Sprintf("argc%d", i), content.Sort, content)
+			}
+		}
+	}
+	for i, r := range res {
+		upd(fmt.Sprintf("ret%d", i), r.T.Sort, r.T)
+	}
+	upd("panicked", SBool, mkBool(panicked))
+	st.ghost[nName] = st.name("logn", app(SInt, "+", n, mkInt(1)))
+	if !ok {
+		st.ghost["log0."+key] = n
+	}
+}
+
+func (x *Exec) loggedContract(name string) *Contract {
+	var found *Contract
+	check := func(c *Contract) {
+		if !c.Flags["logged"] {
+			return
+		}
+		k := logKey(c)
+		if k == name || strings.HasSuffix(k, "."+name) {
+			if found != nil && found != c && logKey(found) != k {
+				sfail("ambiguous logged callee %q", name)
+			}
+			found = c
+		}
+	}
+	for _, c := range x.contracts {
+		check(c)
+	}
+	for _, vs := range x.variants {
+		for _, c := range vs {
+			check(c)
+		}
+	}
+	return found
+}
+
+func (x *Exec) logExpr(c *EvalCtx, v *ECall) SV {
+	if len(v.Args) < 1 {
+		sfail("%s needs a callee", v.Fun)
+	}
+	name := exprName(v.Args[0])
+	if name == "" {
+		sfail("%s: callee must be a name", v.Fun)
+	}
+	lc := x.loggedContract(name)
+	if lc == nil {
+		sfail("%s: no contract with `flag logged` matches %q", v.Fun, name)
+	}
+	key := logKey(lc)
+	ghostOr := func(field string, sort string) T {
+		if g, ok := c.st.ghost["log."+key+"."+field]; ok {
+			return g
+		}
+		if field == "n" {
+			return declConst("log0 "+key+".n", SInt)
+		}
+		return declConst("log0 "+key+"."+field, arraySort(SInt, sort))
+	}
+	switch v.Fun {
+	case "calls":
+		return SV{t: ghostOr("n", SInt), typ: types.Typ[types.Int]}
+	case "panicked":
+		i := c.value(c.eval(v.Args[1]))
+		return SV{t: sel(ghostOr("panicked", SBool), i), typ: types.Typ[types.Bool]}
+	}
+	if len(v.Args) < 2 {
+		sfail("%s(F, i[, k])", v.Fun)
+	}
+	i := c.value(c.eval(v.Args[1]))
+	k := 0
+	if len(v.Args) > 2 {
+		kc, ok := v.Args[2].(*EInt)
+		if !ok {
+			sfail("%s: the position must be a literal", v.Fun)
+		}
+		k = int(kc.V.Int64())
+	}
+	// types come from the callee's signature
+	sig, recvT := x.contractSignature(lc)
+	if sig == nil {
+		sfail("%s: cannot find the signature of %s", v.Fun, lc.Target)
+	}
+	switch v.Fun {
+	case "ret":
+		if k >= sig.Results().Len() {
+			sfail("ret: %s has %d results", lc.Target, sig.Results().Len())
+		}
+		rt := sig.Results().At(k).Type()
+		return SV{t: sel(ghostOr(fmt.Sprintf("ret%d", k), sortOf(rt)), i), typ: rt}
+	case "arg", "argc":
+		var at types.Type
+		idx := k
+		if recvT != nil {
+			if k == 0 {
+				at = recvT
+			} else {
+				at = sig.Params().At(k - 1).Type()
+			}
+		} else {
+			at = sig.Params().At(k).Type()
+		}
+		if v.Fun == "argc" {
+			sl, ok := at.Underlying().(*types.Slice)
+			if !ok {
+				sfail("argc: argument %d of %s is not a slice", k, lc.Target)
+			}
+			cs := arraySort(SInt, sortOf(sl.Elem()))
+			return SV{t: sel(ghostOr(fmt.Sprintf("argc%d", idx), cs), i)}
+		}
+		return SV{t: sel(ghostOr(fmt.Sprintf("arg%d", idx), sortOf(at)), i), typ: at}
+	}
+	sfail("unknown log function %s", v.Fun)
+	return SV{}
+}
+
+// contractSignature finds the Go signature a contract is attached to.
+func (x *Exec) contractSignature(c *Contract) (*types.Signature, types.Type) {
+	key := ""
+	for k, cc := range x.contracts {
+		if cc == c {
+			key = k
+		}
+	}
+	for k, vs := range x.variants {
+		for _, cc := range vs {
+			if cc == c {
+				key = k
+			}
+		}
+	}
+	if key == "" {
+		return nil, nil
+	}
+	// interface method or concrete method: (pkg.T).M / (*pkg.T).M ; function: pkg.F
+	if strings.HasPrefix(key, "(") {
+		j := strings.IndexByte(key, ')')
+		recv := key[1:j]
+		meth := key[j+2:]
+		ptr := strings.HasPrefix(recv, "*")
+		recv = strings.TrimPrefix(recv, "*")
+		k := strings.LastIndexByte(recv, '.')
+		if k < 0 {
+			return nil, nil
+		}
+		pkg := x.typesPkg(recv[:k])
+		if pkg == nil {
+			return nil, nil
+		}
+		tn, ok := pkg.Scope().Lookup(recv[k+1:]).(*types.TypeName)
+		if !ok {
+			return nil, nil
+		}
+		var rt types.Type = tn.Type()
+		if ptr {
+			rt = types.NewPointer(rt)
+		}
+		obj, _, _ := types.LookupFieldOrMethod(rt, true, pkg, meth)
+		f, ok := obj.(*types.Func)
+		if !ok {
+			return nil, nil
+		}
+		return f.Type().(*types.Signature), rt
+	}
+	k := strings.LastIndexByte(key, '.')
+	if k < 0 {
+		return nil, nil
+	}
+	pkg := x.typesPkg(key[:k])
+	if pkg == nil {
+		return nil, nil
+	}
+	name := key[k+1:]
+	if f, ok := pkg.Scope().Lookup(name).(*types.Func); ok {
+		return f.Type().(*types.Signature), nil
+	}
+	if fn := x.funcByName(key[:k], name); fn != nil {
+		return fn.Signature, nil
+	}
+	return nil, nil
+}
 
 func (x *Exec) lockExpr(c *EvalCtx, v *ECall) SV { sfail("lock state not implemented"); return SV{} }
 
